@@ -408,11 +408,19 @@ def scenario(spec):
                     out.append(("returned", repr(fn(block=False))))
                 except RuntimeError:
                     out.append("empty")
+            # a timeout given together with block=False changes nothing: emptiness is reported at once, not after the timeout
+            for fn in (s.recv_silent,):
+                try:
+                    out.append(("returned", repr(fn(block=False, timeout=2.0))))
+                except TimeoutError:
+                    out.append("timed_out")
+                except RuntimeError:
+                    out.append("empty")
             w.result["got"] = out
 
         def check(ws):
             got = ws["bob"].result.get("got")
-            return [("empty_channel_reports_emptiness", got == ["empty", "empty", "empty"], {"got": got})]
+            return [("empty_channel_reports_emptiness", got == ["empty"] * 4, {"got": got})]
         return [("alice", alice), ("bob", bob)], check
     if kind == "callback":
         def alice(w):
